@@ -75,6 +75,11 @@ def check_history(ctx, case):
     c_op = [gens.rand_herm(rng, d) for _ in range(2)]
     n_op = [gens.rand_herm(rng, d, traceless=bool(rng.random() < 0.3)) for _ in range(2)]
     c_co = [rng.standard_normal(n_dt) for _ in range(2)]
+    if n_dt >= 2 and rng.random() < 0.5:
+        # two consecutive segments with identical amplitudes (and, below, identical sensitivities):
+        # equality comparisons merge such segments on the fly
+        for c in c_co:
+            c[1] = c[0]
     n_co = [np.full(n_dt, rng.uniform(0.5, 1.5)) for _ in range(2)]
     dt = rng.uniform(0.2, 1.0, n_dt)
     for nm, arrs in (('c_op', c_op), ('n_op', n_op), ('c_co', c_co), ('n_co', n_co)):
@@ -90,6 +95,11 @@ def check_history(ctx, case):
     S3 = (A @ A.conj().T)[:, :, None]*S1[None, None, :]
     for nm, a in (('omega', omega), ('omega2', omega2), ('S1', S1), ('S2', S2), ('S3', S3)):
         T.watch('arg:' + nm, a)
+    # query times and tensor positions owned by the caller (float / integer ndarrays)
+    tq = np.sort(rng.uniform(0, float(np.sum(dt)), 4))
+    posq = np.array([-1, -2])
+    T.watch('arg:tq', tq)
+    T.watch('arg:posq', posq)
 
     def new_pulse():
         return ff.PulseSequence([[c_op[0], c_co[0], 'X'], [c_op[1], c_co[1], 'Y']],
@@ -149,7 +159,13 @@ def check_history(ctx, case):
          if basis.btype == 'Pauli' else ff.extend([(p, 1)], N=2)),
         ('remap', lambda: ff.remap(ff.extend([(p, 0)], N=2), (1, 0))),
         ('slice', lambda: p[0:1]),
-        ('propagator_at_arb_t', lambda: p.propagator_at_arb_t(np.array([0.0, p.tau/2, p.tau]))),
+        ('propagator_at_arb_t', lambda: p.propagator_at_arb_t(tq)),
+        ('propagator_at_arb_t own times', lambda: p.propagator_at_arb_t(p.t)),
+        ('tensor_merge array pos', lambda: util.tensor_merge(util.tensor(c_op[0], c_op[1]),
+                                                              util.tensor(n_op[0], n_op[1]), pos=posq,
+                                                              arr_dims=[[2, 2]]*2, ins_dims=[[2, 2]]*2)),
+        ('tensor_insert array pos', lambda: util.tensor_insert(util.tensor(c_op[0], c_op[1]), n_op[0],
+                                                                n_op[1], pos=posq, arr_dims=[[2, 2]]*2)),
         ('Basis.from_partial', lambda: ff.Basis.from_partial(basis[1:3])),
         ('Basis.from_partial ndarray', lambda: ff.Basis.from_partial(basis_arr[1:3])),
         ('basis.expand', lambda: ff.basis.expand(c_op[0], basis)),
@@ -162,6 +178,8 @@ def check_history(ctx, case):
                                                            [[2, 2]]*2)),
         ('diagonalize', lambda: numeric.diagonalize(np.array([c_op[0], c_op[1]]), np.array([0.3, 0.4]))),
         ('pulse eq', lambda: np.array([p == q])),
+        ('pulse eq self', lambda: np.array([p == p, p == copy.deepcopy(p), p != q])),
+        ('pulse eq slice', lambda: np.array([p[0:1] == q[0:1]])),
     ]
     # requests on a concatenated pulse with pulse-correlation quantities (created on first use, then
     # shared by the later calls of the history so that earlier returns are watched across them)
